@@ -197,7 +197,8 @@ func c02observe(b []byte, reports, full bool, mult int, retried bool) *c02Outcom
 			o.sig, o.what = sig, what
 		}
 	}
-	pn, st, to = c02Timed(time.Duration(mult)*c02PostBudget, func() {
+	postBudget := time.Duration(mult) * c02PostBudget * time.Duration(1+len(b)/(64<<10))
+	pn, st, to = c02Timed(postBudget, func() {
 		if e := p.CheckValid(); e != nil {
 			fail("C02/accepted/checkvalid", "accepted profile fails CheckValid: "+e.Error())
 			return
@@ -303,7 +304,7 @@ func c02observe(b []byte, reports, full bool, mult int, retried bool) *c02Outcom
 	}
 	switch {
 	case to:
-		fail("C02/accepted/timeout", fmt.Sprintf("Write/Copy/Compact/reports of an accepted profile did not finish within %v", time.Duration(mult)*c02PostBudget))
+		fail("C02/accepted/timeout", fmt.Sprintf("Write/Copy/Compact/reports of an accepted profile did not finish within %v", postBudget))
 	case pn != "":
 		fail("C02/accepted/panic/"+c02PanicWhere(st), "post-parse processing panics: "+pn)
 	}
@@ -668,4 +669,59 @@ func c02CheckGenerated(c *Ctx, p *profile.Profile, stream string) *c02Outcome {
 		}
 	}
 	return o
+}
+
+// c02BigBoundary: light oracle for multi-megabyte valid profiles — written, parsed back,
+// written again, copied; nothing that is super-linear in the stack depth (no Compact, String,
+// reports, canonical text, model). Runs synchronously under recover; an input that cannot be
+// processed within the budget is SKIPPED (noted), never reported: the promptness clause is
+// stated for inputs of at most 64 KiB.
+func c02BigBoundary(c *Ctx, bc c02BoundaryCase) {
+	start := time.Now()
+	stream := "z:" + bc.name
+	report := func(sig, what string) {
+		cs := c02Case{Stream: stream}
+		if canon := Canon(bc.p); len(canon) < 64<<20 {
+			cs.Profile = canon
+		}
+		c.Violation(sig, what+" ("+stream+")", cs)
+	}
+	var raw, raw2 []byte
+	var q, cp *profile.Profile
+	var err error
+	if pn := c02Safely(func() { raw, _ = c02WriteU(bc.p) }); pn != "" || raw == nil {
+		report("C02/write/panic-on-generated", "WriteUncompressed panics on a valid generated profile: "+pn)
+		return
+	}
+	if pn := c02Safely(func() { q, err = profile.ParseData(raw) }); pn != "" {
+		report("C02/parse/panic/big", "ParseData panics on the written form of a valid profile: "+pn)
+		return
+	}
+	if err != nil {
+		report("C02/write/generated-valid-rejected", "the written form of a valid profile is not accepted back: "+c02Trunc(err.Error()))
+		return
+	}
+	if time.Since(start) > 60*time.Second {
+		c.Res.Hit("z-big:skipped-slow")
+		c.Res.Notes = append(c.Res.Notes, fmt.Sprintf("big boundary case %s skipped after parse: %v elapsed on a %d byte input", bc.name, time.Since(start).Round(time.Second), len(raw)))
+		return
+	}
+	if pn := c02Safely(func() { raw2, _ = c02WriteU(q) }); pn != "" {
+		report("C02/write/panic", "WriteUncompressed of an accepted profile panics: "+pn)
+		return
+	}
+	if _, e := profile.ParseData(raw2); e != nil {
+		report("C02/write/unparsable", "the written form of an accepted profile is rejected: "+c02Trunc(e.Error()))
+		return
+	}
+	if pn := c02Safely(func() { cp = q.Copy() }); pn != "" {
+		report("C02/copy/panic", "Copy of an accepted profile panics: "+pn)
+		return
+	}
+	if cp == nil || cp.CheckValid() != nil {
+		report("C02/copy/invalid", "Copy of an accepted profile is not valid")
+		return
+	}
+	c.Res.Hit("z-big:" + bc.name)
+	c.Res.Count(fmt.Sprintf("z-big:%s:%d", bc.name, len(raw)), true)
 }
